@@ -50,6 +50,8 @@ type Contract struct {
 	Line      int
 	Notes     []string
 	CallsFn   map[string]string // funcparam -> "atmostonce" etc (higher order)
+	FuncParams map[string]*Contract // contracts of function-typed parameters
+	GhostSets  []GhostSet
 }
 
 type SpecFn struct {
@@ -91,7 +93,27 @@ type SMTAxiom struct {
 	Text string
 }
 
+type LockInv struct {
+	Type     string // struct type name (package-relative)
+	Field    string // lock field
+	Pkg      string
+	Protects []string // Type.f | ghost variable
+	Self     string
+	Inv      *CNode
+	Src      string
+	Guar     *CNode // optional two-state guarantee G(old, new): reflexive, transitive
+	GuarSrc  string
+}
+
+type GhostSet struct {
+	When string // unlock | return
+	Var  string
+	Expr *CNode
+	Src  string
+}
+
 type ContractSet struct {
+	LockInvs map[string]*LockInv // pkg::Type.field
 	UFuncs   map[string]*UFunc
 	Axioms   []*SMTAxiom
 	Funcs    map[string]*Contract // key: pkgpath + "::" + Key  (trusted: Key only)
@@ -103,13 +125,13 @@ type ContractSet struct {
 }
 
 func newContractSet() *ContractSet {
-	return &ContractSet{UFuncs: map[string]*UFunc{}, Funcs: map[string]*Contract{}, Specs: map[string]*SpecFn{}, Ghosts: map[string]*GhostVar{}}
+	return &ContractSet{LockInvs: map[string]*LockInv{}, UFuncs: map[string]*UFunc{}, Funcs: map[string]*Contract{}, Specs: map[string]*SpecFn{}, Ghosts: map[string]*GhostVar{}}
 }
 
 var clauseKw = map[string]bool{"props": true, "tier": true, "requires": true, "ensures": true, "modifies": true, "loop": true,
-	"panics": true, "inline": true, "pure": true, "assumes": true, "universe": true, "fresh": true, "params": true, "note": true}
+	"panics": true, "inline": true, "pure": true, "assumes": true, "universe": true, "fresh": true, "params": true, "note": true, "funcparam": true, "ghostset": true}
 
-var topKw = map[string]bool{"ufunc": true, "smtaxiom": true, "func": true, "trusted": true, "spec": true, "ghost": true, "lemma": true, "axiom": true, "purepkg": true}
+var topKw = map[string]bool{"lockinv": true, "lockguar": true, "ufunc": true, "smtaxiom": true, "func": true, "trusted": true, "spec": true, "ghost": true, "lemma": true, "axiom": true, "purepkg": true}
 
 type rawLine struct {
 	text string
@@ -269,6 +291,53 @@ func (cs *ContractSet) parseFile(fset *token.FileSet, f *ast.File, pkgPath strin
 			lm.Expr = parse(it, lm.Src)
 			cs.Lemmas = append(cs.Lemmas, lm)
 			cur = nil
+		case "lockinv":
+			// lockinv T.lock protects T.f, ghost self x : inv
+			i := strings.Index(it.rest, ":")
+			if i < 0 {
+				errf(it, "bad lockinv")
+				continue
+			}
+			head := strings.Fields(strings.ReplaceAll(it.rest[:i], ",", " "))
+			if len(head) < 2 || !strings.Contains(head[0], ".") {
+				errf(it, "bad lockinv head")
+				continue
+			}
+			li := &LockInv{Pkg: pkgPath, Self: "self", Src: strings.TrimSpace(it.rest[i+1:])}
+			dot := strings.Index(head[0], ".")
+			li.Type, li.Field = head[0][:dot], head[0][dot+1:]
+			mode := ""
+			for _, h := range head[1:] {
+				switch h {
+				case "protects", "self":
+					mode = h
+				default:
+					if mode == "protects" {
+						li.Protects = append(li.Protects, h)
+					} else if mode == "self" {
+						li.Self = h
+					}
+				}
+			}
+			li.Inv = parse(it, li.Src)
+			cs.LockInvs[pkgPath+"::"+li.Type+"."+li.Field] = li
+			cur = nil
+		case "lockguar":
+			// lockguar T.lock : G   (old(...) refers to the state at Lock)
+			i := strings.Index(it.rest, ":")
+			if i < 0 {
+				errf(it, "bad lockguar")
+				continue
+			}
+			k := pkgPath + "::" + strings.TrimSpace(it.rest[:i])
+			li := cs.LockInvs[k]
+			if li == nil {
+				errf(it, "lockguar without lockinv %s", k)
+				continue
+			}
+			li.GuarSrc = strings.TrimSpace(it.rest[i+1:])
+			li.Guar = parse(it, li.GuarSrc)
+			cur = nil
 		case "ufunc":
 			// ufunc name (sorts) ret
 			i := strings.Index(it.rest, "(")
@@ -329,6 +398,66 @@ func (cs *ContractSet) parseFile(fset *token.FileSet, f *ast.File, pkgPath strin
 				cur.Params = strings.Fields(strings.ReplaceAll(it.rest, ",", " "))
 			case "note":
 				cur.Notes = append(cur.Notes, it.rest)
+			case "ghostset":
+				// ghostset unlock|return VAR := expr
+				fs := strings.Fields(it.rest)
+				i := strings.Index(it.rest, ":=")
+				if len(fs) < 4 || i < 0 {
+					errf(it, "bad ghostset")
+					continue
+				}
+				src := strings.TrimSpace(it.rest[i+2:])
+				cur.GhostSets = append(cur.GhostSets, GhostSet{When: fs[0], Var: fs[1], Expr: parse(it, src), Src: src})
+			case "funcparam":
+				// funcparam NAME(args) | funcparam NAME requires|ensures|modifies ...
+				fs := strings.Fields(it.rest)
+				if len(fs) == 0 {
+					errf(it, "bad funcparam")
+					continue
+				}
+				if cur.FuncParams == nil {
+					cur.FuncParams = map[string]*Contract{}
+				}
+				head := fs[0]
+				name := head
+				var pnames []string
+				if i := strings.Index(head, "("); i >= 0 {
+					name = head[:i]
+					j := strings.Index(it.rest, ")")
+					pl := it.rest[strings.Index(it.rest, "(")+1 : j]
+					pnames = strings.Fields(strings.ReplaceAll(pl, ",", " "))
+				}
+				fp := cur.FuncParams[name]
+				if fp == nil {
+					fp = &Contract{Key: cur.Key + "." + name, Pkg: cur.Pkg, Trusted: true, Loops: map[int]*LoopSpec{}, File: it.file, Line: it.line, Universe: map[string][]string{}, ModSet: true}
+					cur.FuncParams[name] = fp
+				}
+				if pnames != nil {
+					fp.Params = pnames
+					continue
+				}
+				if len(fs) < 2 {
+					continue
+				}
+				rest := strings.TrimSpace(strings.TrimPrefix(strings.TrimSpace(strings.TrimPrefix(it.rest, fs[0])), fs[1]))
+				it2 := it
+				it2.rest = rest
+				switch fs[1] {
+				case "requires":
+					fp.Requires = append(fp.Requires, mkClause(it2, "requires"))
+				case "ensures":
+					fp.Ensures = append(fp.Ensures, mkClause(it2, "ensures"))
+				case "modifies":
+					if rest != "nothing" {
+						for _, m := range strings.Split(rest, ",") {
+							if m = strings.TrimSpace(m); m != "" {
+								fp.Modifies = append(fp.Modifies, m)
+							}
+						}
+					}
+				default:
+					errf(it, "bad funcparam clause %s", fs[1])
+				}
 			case "universe":
 				fs := strings.Fields(strings.ReplaceAll(it.rest, ",", " "))
 				if len(fs) >= 2 {
